@@ -507,21 +507,22 @@ enum Required {
     Unjudged,
 }
 
-fn classify(sd: &StructD, calls: &[Call]) -> (Required, String) {
+/// (requirement, reason, index of the first call the type-state must reject)
+fn classify(sd: &StructD, calls: &[Call]) -> (Required, String, Option<usize>) {
     let mut a = Auto::new(sd);
-    for c in calls {
+    for (k, c) in calls.iter().enumerate() {
         match a.legal(sd, c) {
             Ok(()) => {
                 // overflow at run time is irrelevant for the type check
                 let _ = a.apply(c);
             }
-            Err(Illegal::GlobalSizeAfterData) => return (Required::MustFail, "global size change after data was loaded".into()),
-            Err(Illegal::StackSizeAfterValues) => return (Required::MustFail, "stack size change after values were loaded".into()),
-            Err(Illegal::IncompleteBuild) => return (Required::MustFail, "build() without sizes / program decision / step limit".into()),
-            Err(other) => return (Required::Unjudged, format!("{other:?}")),
+            Err(Illegal::GlobalSizeAfterData) => return (Required::MustFail, "global size change after data was loaded".into(), Some(k)),
+            Err(Illegal::StackSizeAfterValues) => return (Required::MustFail, "stack size change after values were loaded".into(), Some(k)),
+            Err(Illegal::IncompleteBuild) => return (Required::MustFail, "build() without sizes / program decision / step limit".into(), Some(k)),
+            Err(other) => return (Required::Unjudged, format!("{other:?}"), Some(k)),
         }
     }
-    (Required::MustCompile, "legal and complete".into())
+    (Required::MustCompile, "legal and complete".into(), None)
 }
 
 fn cf_alphabet(sd: &StructD) -> Vec<Call> {
@@ -546,6 +547,10 @@ struct CfSeq {
     calls: Vec<Call>,
     required: Required,
     reason: String,
+    /// index of the first call that must be rejected (None for legal sequences)
+    first_illegal: Option<usize>,
+    /// 1-based column ranges [start, end) of each call in the emitted one-line function
+    columns: Vec<(usize, usize)>,
 }
 
 fn enumerate_cf(sds: &[StructD], max_len: usize) -> Vec<CfSeq> {
@@ -557,8 +562,8 @@ fn enumerate_cf(sds: &[StructD], max_len: usize) -> Vec<CfSeq> {
             for prefix in &frontier {
                 let mut calls = prefix.clone();
                 calls.push(Call::Build);
-                let (required, reason) = classify(sd, &calls);
-                out.push(CfSeq { struct_idx: si, calls, required, reason });
+                let (required, reason, first_illegal) = classify(sd, &calls);
+                out.push(CfSeq { struct_idx: si, calls, required, reason, first_illegal, columns: Vec::new() });
             }
             let mut next = Vec::new();
             for prefix in &frontier {
@@ -574,13 +579,20 @@ fn enumerate_cf(sds: &[StructD], max_len: usize) -> Vec<CfSeq> {
     out
 }
 
-fn write_cf_crate(dir: &Path, sds: &[StructD], seqs: &[CfSeq]) -> std::io::Result<usize> {
+fn write_cf_crate(dir: &Path, sds: &[StructD], seqs: &mut [CfSeq]) -> std::io::Result<usize> {
     let mut src = String::from(GEN_HEADER);
     let header_lines = src.lines().count();
-    for (id, s) in seqs.iter().enumerate() {
+    for (id, s) in seqs.iter_mut().enumerate() {
         let sd = &sds[s.struct_idx];
-        let chain: String = s.calls.iter().map(|c| emit_call(sd, c, true, 0, 0)).collect();
-        let _ = writeln!(src, "pub fn f{id}() {{ let _ = {}::builder(){chain}; }}", sd.ty);
+        let mut line = format!("pub fn f{id}() {{ let _ = {}::builder()", sd.ty);
+        s.columns.clear();
+        for c in &s.calls {
+            let start = line.chars().count() + 1;
+            line.push_str(&emit_call(sd, c, true, 0, 0));
+            s.columns.push((start, line.chars().count() + 1));
+        }
+        line.push_str("; }");
+        let _ = writeln!(src, "{line}");
     }
     std::fs::write(dir.join("src/generated.rs"), src)?;
     std::fs::write(
@@ -715,8 +727,8 @@ pub fn run(args: &Args) -> i32 {
 
     // ---------------------------------------------------------------- compile-time part
     let max_len = args.tier.pick(3usize, 4usize);
-    let cf = enumerate_cf(&sds, max_len);
-    match write_cf_crate(&base.join("cf"), &sds, &cf) {
+    let mut cf = enumerate_cf(&sds, max_len);
+    match write_cf_crate(&base.join("cf"), &sds, &mut cf) {
         Err(e) => rep.inconclusive(format!("cannot write generated compile-fail crate: {e}")),
         Ok(header_lines) => {
             let out = cargo(&base.join("cf"), &target, &["check", "--offline", "--quiet", "--message-format=json"], Duration::from_secs(2400));
@@ -727,7 +739,8 @@ pub fn run(args: &Args) -> i32 {
             if code.is_none() {
                 rep.inconclusive(format!("compile-fail crate: cargo check did not finish ({:?})", out).chars().take(300).collect::<String>());
             } else {
-                let mut rejected: BTreeMap<usize, String> = BTreeMap::new();
+                // function index -> (error code, column of the earliest primary error span)
+                let mut rejected: BTreeMap<usize, (String, usize)> = BTreeMap::new();
                 let mut foreign_errors = Vec::new();
                 for line in stdout.lines() {
                     let Ok(v) = serde_json::from_str::<Value>(line) else { continue };
@@ -742,7 +755,11 @@ pub fn run(args: &Args) -> i32 {
                             if file.ends_with("generated.rs") && sp["is_primary"] == json!(true) {
                                 let line_no = sp["line_start"].as_u64().unwrap_or(0) as usize;
                                 if line_no > header_lines {
-                                    rejected.entry(line_no - header_lines - 1).or_insert(code.clone());
+                                    let col = sp["column_start"].as_u64().unwrap_or(0) as usize;
+                                    let e = rejected.entry(line_no - header_lines - 1).or_insert((code.clone(), col));
+                                    if col < e.1 {
+                                        *e = (code.clone(), col);
+                                    }
                                     placed = true;
                                 }
                             }
@@ -762,9 +779,11 @@ pub fn run(args: &Args) -> i32 {
                     for (id, s) in cf.iter().enumerate() {
                         let sd = &sds[s.struct_idx];
                         let was_rejected = rejected.contains_key(&id);
-                        if let Some(c) = rejected.get(&id) {
+                        if let Some((c, _)) = rejected.get(&id) {
                             *codes.entry(c.clone()).or_insert(0) += 1;
                         }
+                        // which call did rustc reject first?
+                        let rejected_call: Option<usize> = rejected.get(&id).and_then(|(_, col)| s.columns.iter().position(|(a, b)| col >= a && col < b));
                         rep.eval();
                         rep.distinct_by_construction(1);
                         let shown: String = s.calls.iter().map(|c| render_call(sd, c)).collect();
@@ -781,14 +800,29 @@ pub fn run(args: &Args) -> i32 {
                         *table.entry(key).or_insert(0) += 1;
                         match (s.required, was_rejected) {
                             (Required::MustCompile, true) => rep.violation(format!("C19/{}/legal-sequence-rejected", sd.ty), || {
-                                json!({"struct": sd.ty, "sequence": format!("{}::builder(){shown}", sd.ty), "rustc_error": rejected.get(&id)})
+                                json!({"struct": sd.ty, "sequence": format!("{}::builder(){shown}", sd.ty), "rustc_error": rejected.get(&id).map(|e| e.0.clone())})
                             }),
                             (Required::MustFail, false) => rep.violation(format!("C19/{}/misuse-accepted", sd.ty), || {
                                 json!({"struct": sd.ty, "sequence": format!("{}::builder(){shown}", sd.ty), "why_it_must_not_compile": s.reason})
                             }),
+                            // the function is rejected, but only at a *later* call: the call that
+                            // the statement says must not type-check was accepted
+                            (Required::MustFail, true) if rejected_call.is_some() && s.first_illegal.is_some() && rejected_call > s.first_illegal => {
+                                rep.violation(format!("C19/{}/misuse-accepted", sd.ty), || {
+                                    json!({"struct": sd.ty, "sequence": format!("{}::builder(){shown}", sd.ty), "why_it_must_not_compile": s.reason,
+                                           "call_that_must_be_rejected": s.first_illegal.map(|k| render_call(sd, &s.calls[k])),
+                                           "call_rustc_rejected_instead": rejected_call.map(|k| render_call(sd, &s.calls[k]))})
+                                });
+                            }
+                            (Required::MustFail, true) if rejected_call.is_some() && rejected_call < s.first_illegal => {
+                                rep.violation(format!("C19/{}/legal-call-rejected", sd.ty), || {
+                                    json!({"struct": sd.ty, "sequence": format!("{}::builder(){shown}", sd.ty),
+                                           "call_rustc_rejected": rejected_call.map(|k| render_call(sd, &s.calls[k])), "first_call_that_may_be_rejected": s.first_illegal.map(|k| render_call(sd, &s.calls[k]))})
+                                });
+                            }
                             _ => {
                                 if rep.wants_sample() && s.required == Required::MustFail && s.calls.len() >= 3 {
-                                    rep.sample(|| json!({"kind": "compile-time verdict", "sequence": format!("{}::builder(){shown}", sd.ty), "required": "must fail", "why": s.reason, "rustc": rejected.get(&id)}));
+                                    rep.sample(|| json!({"kind": "compile-time verdict", "sequence": format!("{}::builder(){shown}", sd.ty), "required": "must fail", "why": s.reason, "rustc": rejected.get(&id).map(|e| e.0.clone()), "rejected_at_call": rejected_call.map(|k| render_call(sd, &s.calls[k]))}));
                                 }
                             }
                         }
